@@ -123,7 +123,7 @@ def uniform_contract(col, g, dim, scheme):
     cid = f"uniform:{dim}d:{scheme}"
     ok = col.check(cid, chk, inputs=inp, sample={"dim": dim, "scheme": scheme, "shape": shape.tolist()})
     if not ok and scheme == "Fourier2":
-        d = col.failures[-1]["detail"] or ""
+        d = col.last_failure["detail"] or ""
         # signature of the recorded finding: raises IndexError in 2D (uses shape[2]); weights sum to zero in 3D
         zero_sum = False
         if dim == 3:
@@ -133,7 +133,7 @@ def uniform_contract(col, g, dim, scheme):
             except Exception:  # noqa: BLE001
                 zero_sum = False
         if (dim == 2 and d.startswith("IndexError: index 2 is out of bounds")) or zero_sum:
-            col.failures[-1]["case_id"] = cid + ":known"
+            col.last_failure["case_id"] = cid + ":known"
 
 
 def shipped_from_molecule(nums, coords, spacing, ext, rotate):
@@ -184,7 +184,7 @@ def molecule_contract(col, g, k):
             grid = UniformGrid.from_molecule(nums, coords, spacing=spacing, extension=ext, rotate=rotate)
             o, a, sh = shipped_from_molecule(nums, coords, spacing, ext, rotate)
             if np.allclose(grid.origin, o, atol=1e-9) and np.allclose(grid.axes, a, atol=1e-9) and np.array_equal(np.asarray(grid.shape), sh):
-                col.failures[-1]["case_id"] += ":known-box-centred-on-charge"
+                col.last_failure["case_id"] += ":known-box-centred-on-charge"
         except Exception:  # noqa: BLE001
             pass
 
